@@ -81,7 +81,7 @@ def sites(prog):
         if e == "asg" and prog["funs"]:
             def f(p, path=path):
                 n = _get(p, path)
-                n["x"] = p["funs"][0]["name"]
+                n["x"] = p["funs"][0].get("oname", p["funs"][0]["name"])
                 n["v"] = lit("si", 3)
             yield ("assignment-to-constant", "assignment turned into %s := 3" % prog["funs"][0]["name"], f)
     for fi, fn in enumerate(prog["funs"]):
